@@ -122,3 +122,20 @@ def _(fobj: "file", start_offset: "opt[int]", maxrange: "opt[int]"):
               assert_(forall(lambda k: yielded[k] == y_old[k], 0, len(y_old)))])
     domain(fobj=files(alphabet=b"\x00\x10\x11\x12", maxlen=5, positions=(0, 1)) + gen_ak_files(),
            start_offset=ints(None, 0, 1), maxrange=ints(None, 0, 1, 3))
+
+
+@lemma(props=["C09", "C15"])
+def contains_cat(a: "ilist", b: "ilist", c: "int"):
+    requires(contains(a, c) or contains(b, c))
+    ensures(contains(a + b, c))
+    let("ab", a + b)
+    assert_(len(ab) == len(a) + len(b))
+
+
+@lemma(props=["C09", "C15"])
+def contains_cat_all(a: "ilist", b: "ilist"):
+    """membership in a concatenation"""
+    ensures(forall(lambda c: implies(contains(a, c) or contains(b, c), contains(a + b, c)),
+                   trigger=[contains(a, c), contains(b, c)]))
+    let("ab", a + b)
+    assert_(len(ab) == len(a) + len(b))
